@@ -17,7 +17,10 @@ RULE = (
     "span width and justification shape) and with the model's exact text; exhaustive over kinds x size 0-6 x start "
     "0-6 x target length 0-14 (marker alphabet: every position distinguishable) x value widths 0..size. line: "
     "(layout in any order with gaps, values, storage) -> Line.write (Spec.C02.holdsLine / holdsLineBin). defaults: "
-    "geometry of default-constructed fields vs the documented one. 'fits' is decided by the Lean predicate "
+    "geometry of default-constructed fields vs the documented one. field_struct: a binary integer field of a user "
+    "subclass (two levels deep) whose class-level type table adds a 1-byte integer, sizes 1/2/4: the layout clauses "
+    "(Spec.C02.holdsFieldBin) and the span bytes (int.to_bytes) are evaluated on the observation — the model has no "
+    "subclass tables; a fifth of all field objects in every check are instances of a do-nothing user sub-subclass. 'fits' is decided by the Lean predicate "
     "Spec.C02.fits; non-fitting cases are skipped (counted under verdicts.skip). non-trivial = field size > 0 and "
     "value not None; distinct by full case."
 )
@@ -36,6 +39,16 @@ def run_impl(case):
     try:
         if m == "field":
             f = codec.mk_field(case["field"])
+            f.value = codec.dec_val(case["value"])
+            return {"out": codec.enc_data(f.write(codec.dec_data(case["line"])))}
+        if m == "field_struct":
+            # a user subclass (two levels deep) that extends the class-level numeric type table
+            import numpy as np
+            from cfinterface.components.integerfield import IntegerField
+
+            mid = type("SmallInt", (IntegerField,), {"TYPES": {**IntegerField.TYPES, 1: np.int8}})
+            cls = type("Flag", (mid,), {})
+            f = cls(case["field"]["size"], case["field"]["start"])
             f.value = codec.dec_val(case["value"])
             return {"out": codec.enc_data(f.write(codec.dec_data(case["line"])))}
         if m == "line":
@@ -81,6 +94,10 @@ def request(case, obs):
         obs = {"out": {"exc": "harness"}}
     if m == "field":
         return {"op": "c02", "mode": "field", "field": case["field"], "value": case["value"], "line": case["line"], "out": obs["out"]}
+    if m == "field_struct":
+        v = codec.dec_val(case["value"])
+        span = (0 if v is None else v).to_bytes(case["field"]["size"], "little", signed=True)
+        return {"op": "c02", "mode": "field_struct", "field": case["field"], "line": case["line"], "out": obs["out"], "span_expected": codec.enc_data(span)}
     if m == "line":
         return {"op": "c02", "mode": "line", "fields": case["fields"], "values": case["values"], "storage": case["storage"], "out": obs["out"]}
     if "geometry" not in obs:
@@ -115,7 +132,7 @@ def show(d):
 
 
 def nontrivial(case):
-    if case["mode"] == "field":
+    if case["mode"] in ("field", "field_struct"):
         return case["field"]["size"] > 0 and case["value"] is not None
     if case["mode"] == "line":
         return len(case["fields"]) > 0
@@ -125,7 +142,7 @@ def nontrivial(case):
 def features(case, obs):
     m = case["mode"]
     f = [f"mode={m}"]
-    if m == "field":
+    if m in ("field", "field_struct"):
         f += [f"kind={case['field']['k']}", "bytes" if "b" in case["line"] else "str"]
         ln = len(case["line"].get("s", case["line"].get("b")))
         stop = case["field"]["start"] + case["field"]["size"]
@@ -217,6 +234,13 @@ def exhaustive_field_bin(maxstart, maxlen):
             for v in vals:
                 for ln in range(0, maxlen + 1):
                     yield {"mode": "field", "field": fdesc, "value": v, "line": codec.enc_data(bytes(range(97, 97 + ln)))}
+    # user subclass (two levels) extending the class-level type table with a 1-byte integer;
+    # the native widths must keep working in it too
+    for size in (1, 2, 4):
+        for start in range(0, maxstart + 1):
+            for v in (None, {"i": 0}, {"i": 7}, {"i": -1}, {"i": 2 ** (8 * size - 1) - 1}, {"i": -(2 ** (8 * size - 1))}):
+                for ln in range(0, maxlen + 1):
+                    yield {"mode": "field_struct", "field": codec.fd_int(size, start), "value": v, "line": codec.enc_data(bytes(range(97, 97 + ln)))}
 
 
 def random_layout(rng, binary=False):
@@ -275,7 +299,7 @@ def chunks(tier, seed):
     if tier == "quick":
         ms, mst, ml, nrand = 6, 6, 14, 4000
     elif tier == "thorough":
-        ms, mst, ml, nrand = 10, 8, 24, 100000
+        ms, mst, ml, nrand = 10, 8, 24, 400000
     else:
         ms, mst, ml, nrand = 6, 6, 14, 12000
     for kind in ("int", "lit", "flt", "date"):
